@@ -2,8 +2,75 @@
 
 package ocsp
 
+//@ type OCSPRevocationChecker
+//@   immutable: ocspConfig, logger
+
+//@ spec func ocspOK(c ref) bool = c != nil && c.ocspConfig != nil && c.logger != nil && certsNonNil(c.ocspConfig.TrustedResponderCerts)
+//@ spec func rdnOfBytes(raw string) string uninterpreted
+//@ spec func cacheKeyOf(cert ref) string = rdnOfBytes(content(cert.RawIssuer)) + "_" + decString(big(cert.SerialNumber))
+
 //@ func OCSPRevocationChecker.IsRevoked
-//@   props C02
-//@   requires c != nil && clientCertificate != nil
-//@   assigns OCSPRevocationChecker.cache, X.cache2go, X.net
+//@   props C02 C05 C14
+//@   requires ocspOK(c) && clientCertificate != nil && chainsNonNil(verifiedChains)
+//@   assigns ocsp.OCSPRevocationChecker.cache, X.cache2go, X.net, X.stream, E.uint8, fresh:E.string, fresh:E.*core.CertificateChainEntry, fresh:E.core.CertificateChain, fresh:E.core.CertificateChainEntry, M.http.Header
 //@   ensures err == nil ==> ret != nil
+//@   ensures[C02] revoked_answer_is_reported: called(OCSPRevocationChecker.parseOcspResponse#1) && res(OCSPRevocationChecker.parseOcspResponse#1, 1) == nil ==> err == nil && ret.Revoked == (res(OCSPRevocationChecker.parseOcspResponse#1, 0).Status == ocsp.Revoked)
+//@   ensures[C02] cached_answer_is_returned: called(OCSPRevocationChecker.tryGetResponseFromCache#1) && res(OCSPRevocationChecker.tryGetResponseFromCache#1, 1) == nil ==> err == nil && ret == res(OCSPRevocationChecker.tryGetResponseFromCache#1, 0)
+//@   ensures[C02] strict_needs_an_answer: called(OCSPRevocationChecker.filterHTTPOCSPServers#1) && !(called(OCSPRevocationChecker.parseOcspResponse#1) && res(OCSPRevocationChecker.parseOcspResponse#1, 1) == nil) && c.ocspConfig.OCSPAIAStrict && len(res(OCSPRevocationChecker.filterHTTPOCSPServers#1)) > 0 ==> err != nil
+//@   ensures[C02] lenient_never_rejects_for_unavailability: called(OCSPRevocationChecker.filterHTTPOCSPServers#1) && !(called(OCSPRevocationChecker.parseOcspResponse#1) && res(OCSPRevocationChecker.parseOcspResponse#1, 1) == nil) && !(c.ocspConfig.OCSPAIAStrict && len(res(OCSPRevocationChecker.filterHTTPOCSPServers#1)) > 0) ==> err == nil && !ret.Revoked
+//@   ensures[C05] answer_is_about_this_certificate: called(OCSPRevocationChecker.parseOcspResponse#1) && res(OCSPRevocationChecker.parseOcspResponse#1, 1) == nil ==> big(res(OCSPRevocationChecker.parseOcspResponse#1, 0).SerialNumber) == big(clientCertificate.SerialNumber)
+//@   ensures[C14,C05] only_answers_are_cached: called(CacheTable.Add#1) ==> called(OCSPRevocationChecker.parseOcspResponse#1) && res(OCSPRevocationChecker.parseOcspResponse#1, 1) == nil && arg(CacheTable.Add#1, 2) > 0
+//@   ensures[C14] cache_key_names_issuer_and_serial: called(OCSPRevocationChecker.tryGetResponseFromCache#1) ==> arg(OCSPRevocationChecker.tryGetResponseFromCache#1, 1) == cacheKeyOf(clientCertificate)
+//@   ensures[C14] lookup_and_store_use_the_same_key: called(CacheTable.Add#1) ==> arg(CacheTable.Add#1, 1) == arg(OCSPRevocationChecker.tryGetResponseFromCache#1, 1)
+//@   loop 1 invariant ocspOK(c)
+//@   loop 2 invariant ocspOK(c)
+//@   loop 1 iter_ensures[C02] failed_responder_does_not_end_the_search: !(called(OCSPRevocationChecker.parseOcspResponse#1) && res(OCSPRevocationChecker.parseOcspResponse#1, 1) == nil)
+//@   loop 2 iter_ensures[C02] failed_candidate_does_not_end_the_search: !(called(OCSPRevocationChecker.parseOcspResponse#1) && res(OCSPRevocationChecker.parseOcspResponse#1, 1) == nil)
+
+//@ func OCSPRevocationChecker.parseOcspResponse
+//@   props C05 C02
+//@   requires ocspOK(c)
+//@   requires forall k int :: 0 <= k && k < len(certCandidates) ==> certCandidates[k] != nil && certCandidates[k].Certificate != nil
+//@   pure
+//@   ensures err == nil ==> ret != nil
+//@   ensures[C05] only_issuer_authorised_answers: err == nil ==> exists k int :: 0 <= k && k < len(certCandidates) && ocspAuthentic(ret, certCandidates[k].Certificate)
+
+//@ func OCSPRevocationChecker.calculateEvictionTime
+//@   props C14
+//@   requires c != nil && c.ocspConfig != nil && response != nil
+//@   pure
+//@   ensures[C14] lifetime: (res(Time.Sub#1) > 0 ==> ret == res(Time.Sub#1) + maxClockSkew || ret <= 0) && (res(Time.Sub#1) <= 0 ==> ret == c.ocspConfig.DefaultCacheDurationParsed)
+//@   ensures[C14] bounded_by_next_update: called(Time.Sub#1) && arg(Time.Sub#1, 0) == response.NextUpdate && arg(Time.Sub#1, 1) == res(Now#1)
+
+//@ func OCSPRevocationChecker.tryGetResponseFromCache
+//@   props C14 C13
+//@   requires c != nil
+//@   assigns ocsp.OCSPRevocationChecker.cache, X.cache2go
+//@   ensures err == nil ==> ret != nil
+
+//@ func OCSPRevocationChecker.filterHTTPOCSPServers
+//@   props C02
+//@   assigns fresh:E.string
+//@   ensures[C02] only_http: forall k int :: 0 <= k && k < len(ret) ==> hasprefix(lower(ret[k]), "http")
+//@   ensures[C02] every_http_responder_kept: (exists i int :: 0 <= i && i < len(ocspServerList) && hasprefix(lower(ocspServerList[i]), "http")) ==> len(ret) > 0
+//@   loop 1 invariant fresh(httpOcspUrls) || cap(httpOcspUrls) == 0
+//@   loop 1 invariant forall k int :: 0 <= k && k < len(httpOcspUrls) ==> hasprefix(lower(httpOcspUrls[k]), "http")
+//@   loop 1 invariant (exists i int :: 0 <= i && i <= $idx && hasprefix(lower(ocspServerList[i]), "http")) ==> len(httpOcspUrls) > 0
+
+//@ func OCSPRevocationChecker.executeHttpRequest
+//@   props C02 C05
+//@   requires c != nil && clientCert != nil && issuerCert != nil
+//@   assigns X.net, M.http.Header
+//@ func OCSPRevocationChecker.prepareHttpRequest
+//@   props C02
+//@   requires c != nil
+//@   assigns M.http.Header
+//@ func OCSPRevocationChecker.Provision
+//@   props C19
+//@   requires c != nil
+//@   assigns *c
+//@   ensures err == nil && c.ocspConfig == ocspConfig && c.logger == logger
+//@ func OCSPRevocationChecker.Cleanup
+//@   props C20
+//@   requires c != nil
+//@   assigns X.cache2go
